@@ -41,15 +41,23 @@ func cmdSweep(args []string) {
 	repo := fs.String("repo", "/repo", "repository root")
 	timeout := fs.Int("timeout", 10, "per-obligation timeout (s)")
 	only := fs.String("func", "", "substring filter")
+	sprop := fs.String("property", "", "sweep call sites of this property's sweep-callers contracts")
+	sdump := fs.String("dump", "", "keep SMT files here")
+	snotes := fs.Bool("notes", false, "print abstraction notes")
 	fs.Parse(args)
 	g, err := loadAll(*repo)
 	if err != nil {
 		fmt.Fprintln(os.Stderr, "CANNOT-CHECK:", err)
 		os.Exit(2)
 	}
-	frs := g.verifyAll(g.sweepContracts(*only))
+	frs := g.verifyAll(g.sweepContracts(*only, *sprop, *sprop == "" || *sprop == "C05"))
 	dir, _ := os.MkdirTemp("", "gvc-smt-")
-	defer os.RemoveAll(dir)
+	if *sdump != "" {
+		dir = *sdump
+		os.MkdirAll(dir, 0o755)
+	} else {
+		defer os.RemoveAll(dir)
+	}
 	var obs []*Oblig
 	pres := map[*Exec][2]string{}
 	for _, fr := range frs {
@@ -67,6 +75,11 @@ func cmdSweep(args []string) {
 	for _, fr := range frs {
 		for _, u := range fr.Unsupported {
 			fmt.Printf("UNSUPPORTED %s: %s\n", fr.Name, strings.SplitN(u, "\n", 2)[0])
+		}
+		if *snotes {
+			for _, n := range fr.Notes {
+				fmt.Printf("note %s: %s\n", fr.Name, n)
+			}
 		}
 		for _, o := range fr.Obligs {
 			if o.Kind != "create" && o.Kind != "pre" {
@@ -91,13 +104,27 @@ func cmdSweep(args []string) {
 
 // sweepContracts: synthetic empty contracts (sweep mode) for every function without contract that
 // creates a value of a type with a creation invariant.
-func (g *Gen) sweepContracts(only string) []*Contract {
+func (g *Gen) sweepContracts(only string, prop string, create bool) []*Contract {
 	var out []*Contract
 	var names []string
 	for k := range g.funcs {
 		names = append(names, k)
 	}
 	sort.Strings(names)
+	hasProp := func(cc *Contract) bool {
+		if cc == nil || !cc.Flags["sweep-callers"] || len(cc.Requires) == 0 {
+			return false
+		}
+		if prop == "" {
+			return true
+		}
+		for _, p := range cc.Props {
+			if p == prop {
+				return true
+			}
+		}
+		return false
+	}
 	for _, k := range names {
 		fn := g.funcs[k]
 		if fn.Pkg == nil || g.contracts[fn] != nil || fn.Synthetic != "" || !strings.Contains(k, only) {
@@ -109,12 +136,17 @@ func (g *Gen) sweepContracts(only string) []*Contract {
 		has := false
 		for _, b := range fn.Blocks {
 			for _, in := range b.Instrs {
-				if mi, ok := in.(*ssa.MakeInterface); ok && g.createInv[typeKey(mi.X.Type())] != nil {
+				if mi, ok := in.(*ssa.MakeInterface); ok && create && g.createInv[typeKey(mi.X.Type())] != nil {
 					has = true
 				}
 				if c, ok := in.(*ssa.Call); ok {
-					if cal := c.Common().StaticCallee(); cal != nil {
-						if cc := g.contracts[cal]; cc != nil && len(cc.Requires) > 0 && sweepProp(cc) {
+					com := c.Common()
+					if com.IsInvoke() {
+						if hasProp(g.ifaceContracts[ifaceKey(com.Value.Type(), com.Method)]) {
+							has = true
+						}
+					} else if cal := com.StaticCallee(); cal != nil {
+						if hasProp(g.contracts[cal]) {
 							has = true
 						}
 					}
@@ -197,6 +229,15 @@ func main() {
 		cmdReplay(os.Args[2:])
 	case "sweep":
 		cmdSweep(os.Args[2:])
+	case "stable":
+		g, err := loadAll("/repo")
+		if err != nil {
+			fmt.Fprintln(os.Stderr, err)
+			os.Exit(2)
+		}
+		for _, o := range g.stableScan() {
+			fmt.Println(o.Res.Status, o.Name, o.Res.Output)
+		}
 	case "overlay":
 		g, err := loadAll("/repo")
 		if g != nil {
